@@ -157,6 +157,19 @@ def pred_1d(case):
             if len(xi) and np.abs(di - _poly(case["poly"], xi, a, L, 1)).max() > td:
                 raise Violation("C08:%s:polynomial-slopes" % tag, "derivative of degree-%d polynomial not reproduced: max error %.3e (tol %.3e)"
                                 % (len(case["poly"]) - 1, np.abs(di - _poly(case["poly"], xi, a, L, 1)).max(), td))
+    # ---- the same interpolator / spline re-used for other data behaves like a fresh one ------------
+    other = data[::-1] * 0.5 + 1.0
+    with crash_is_violation("C08:interp1d", "compute_interpolant (re-used objects)"):
+        interp.compute_interpolant(other.copy(), spl)
+        again = spl.coeffs.copy()
+        fresh = Spline1D(basis)
+        SplineInterpolator1D(basis).compute_interpolant(other.copy(), fresh)
+        interp.compute_interpolant(data.copy(), spl)
+    if not np.array_equal(again, fresh.coeffs):
+        raise Violation("C08:%s:reuse" % tag, "a re-used interpolator gives coefficients differing by %.3e from a fresh one"
+                        % np.abs(again - fresh.coeffs).max())
+    if not np.array_equal(spl.coeffs, c):
+        raise Violation("C08:%s:reuse" % tag, "interpolating the first data again does not reproduce the first coefficients")
     nontriv = float(np.ptp(data)) > 0 and (len(space["breaks"]) - 1) >= 3
     return {"nontrivial": nontriv, "labels": [tag, kind, "deg%d" % p,
                                               "uniform" if space["uniform_breaks"] else "nonuniform"]}
